@@ -153,4 +153,4 @@ package ice
 //@   site call EnqueueCandidate#1 assert nil-only-on-the-transition-to-complete: newState == GatheringStateComplete && a.gatheringState != GatheringStateComplete && arg1 == nil
 //@   site store gatheringState#1 assert state-only-from-a-live-cycle: !gatherCtx.gDone && value == newState
 //@   ensures cancelled-cycle-changes-nothing: old(gatherCtx.gDone) ==> unchangedExcept("Chan.closed") && applied == old(applied)
-//@   ensures live-cycle-applies: !old(gatherCtx.gDone) ==> applied && a.gatheringState == newState
+//@   ensures live-cycle-applies: !old(ctxIsDone(gatherCtx)) ==> applied && a.gatheringState == newState
